@@ -275,7 +275,7 @@ def run(ctx):
     except TE.Refuse as e:
         ctx.obligation("translate_exprs", False, f"translator refused: {e}")
         tr_ok = False
-    ok, out = ctx.build(["proofs/NormProofs.vo", "proofs/PrefixTrees.vo", "proofs/PrefixChart.vo", "proofs/PriorityProofs.vo", "proofs/PriorityRescaled.vo", "proofs/RescaleProofs.vo"]) if tr_ok else (False, "translator")
+    ok, out = ctx.build(["proofs/NormProofs.vo", "proofs/PrefixTrees.vo", "proofs/PrefixChart.vo", "proofs/PriorityProofs.vo", "proofs/PriorityRescaled.vo", "proofs/RescaleProofs.vo", "proofs/PrefixSumProofs.vo"]) if tr_ok else (False, "translator")
     if ok:
         ctx.prove("props/C04.v")
     else:
